@@ -20,10 +20,12 @@ Inductive c14_case :=
 | CPair (id : N) (i j : N) (ab ba : list obs)            (* both directions of an unordered pair *)
 | CMem (id : N) (i j : N) (pres_j : bool) (o : obs)      (* pool[i] ~ pool[j]; is the right operand materialised *)
 | CMem2 (id : N) (i j k : N) (o : obs)                   (* pool[i] ~ [pool[j], pool[k]] *)
-| CTriple (id : N) (i j k : N) (o : list obs).
+| CTriple (id : N) (i j k : N) (o : list obs)
+| COrder (id : N) (ix : list N) (o : obs).               (* [pool[i] | i in ix].order(x->x), at most 12 elements *)
 
 Definition c14_id (c : c14_case) : N :=
-  match c with CPair id _ _ _ _ => id | CMem id _ _ _ _ => id | CMem2 id _ _ _ _ => id | CTriple id _ _ _ _ => id end.
+  match c with CPair id _ _ _ _ => id | CMem id _ _ _ _ => id | CMem2 id _ _ _ _ => id | CTriple id _ _ _ _ => id
+          | COrder id _ _ => id end.
 
 Definition getv (pool : list value) (i : N) : value := nth (N.to_nat i) pool (VBool false).
 
@@ -88,16 +90,51 @@ Definition agree_n (m : res N) (o : obs) : bool :=
   | _, _ => false
   end.
 
+(* l.order(x->x): List.Order copies the items and calls sort.Sort with Less(i,j) = fg.less(item i, item j);
+   an error of fg.less is remembered (the first one), Less answers false, and the error is returned
+   after the sort.  For at most 12 elements sort.Sort (pdqsort) IS this insertion sort:
+     for i := 1; i < n; i++ { for j := i; j > 0 && Less(j, j-1); j-- { Swap(j, j-1) } }
+   Longer lists are outside this model (Unsup). *)
+Fixpoint order_ins (x : value) (rev_done right : list value) (err : bool) : res (list value * bool) :=
+  match rev_done with
+  | [] => Ok (x :: right, err)
+  | y :: rd' =>
+      match vless x y with
+      | Ok true => order_ins x rd' (y :: right) err               (* Swap(j, j-1), go on to the left *)
+      | Ok false => Ok (rev rev_done ++ x :: right, err)
+      | Err _ | Panic => Ok (rev rev_done ++ x :: right, true)    (* Less = false, error registered *)
+      | OOF => OOF | Unsup => Unsup
+      end
+  end.
+
+Fixpoint order_loop (done todo : list value) (err : bool) : res (list value * bool) :=
+  match todo with
+  | [] => Ok (done, err)
+  | x :: todo' =>
+      match order_ins x (rev done) [] err with
+      | Ok (done', err') => order_loop done' todo' err'
+      | Err t => Err t | Panic => Panic | OOF => OOF | Unsup => Unsup
+      end
+  end.
+
+Definition order_model (l : list value) : res value :=
+  if Nat.ltb 12 (length l) then Unsup else
+  match order_loop [] l false with
+  | Ok (out, false) => Ok (VList out)
+  | Ok (_, true) => Err None
+  | Err t => Err t | Panic => Panic | OOF => OOF | Unsup => Unsup
+  end.
+
 (* observations of one direction: = != < > <= >=, then min(a,b), max(a,b), switch a case b, [a,b].order *)
 Definition dir_im (a b : value) (o : list obs) : bool :=
   match o with
-  | [o1; o2; o3; o4; o5; o6; omin; omax; osw; _oord] =>
+  | [o1; o2; o3; o4; o5; o6; omin; omax; osw; oord] =>
       agree_bool (calc op_eq a b) o1 && agree_bool (calc op_ne a b) o2
       && agree_bool (calc op_lt a b) o3 && agree_bool (calc op_gt a b) o4
       && agree_bool (calc op_le a b) o5 && agree_bool (calc op_ge a b) o6
       && agree_val [a; b] (run_static n_min [a; b]) omin && agree_val [a; b] (run_static n_max [a; b]) omax
       && agree_n (switch_model a [b] 1) osw
-      (* order: sort.Sort's sequence of comparisons is not modelled; it is judged by c14_is only *)
+      && agree_val [a; b] (order_model [a; b]) oord
   | _ => false
   end.
 
@@ -105,10 +142,11 @@ Definition dir_im (a b : value) (o : list obs) : bool :=
            switch a case b:1 case c:2 default 0;  a<b b<c a<c  a=b b=c a=c *)
 Definition triple_im (a b c : value) (o : list obs) : bool :=
   match o with
-  | [omin; omax; olmin; olmax; _oord; osw; l1; l2; l3; e1; e2; e3] =>
+  | [omin; omax; olmin; olmax; oord; osw; l1; l2; l3; e1; e2; e3] =>
       agree_val [a; b; c] (run_static n_min [a; b; c]) omin && agree_val [a; b; c] (run_static n_max [a; b; c]) omax
       && agree_val [a; b; c] (pick_min a [b; c]) olmin && agree_val [a; b; c] (pick_max a [b; c]) olmax
       && agree_n (switch_model a [b; c] 1) osw
+      && agree_val [a; b; c] (order_model [a; b; c]) oord
       && agree_bool (calc op_lt a b) l1 && agree_bool (calc op_lt b c) l2 && agree_bool (calc op_lt a c) l3
       && agree_bool (calc op_eq a b) e1 && agree_bool (calc op_eq b c) e2 && agree_bool (calc op_eq a c) e3
   | _ => false
@@ -122,6 +160,7 @@ Definition c14_im (pool : list value) (c : c14_case) : bool :=
   | CMem _ i j pj o => agree_bool (calc_repr pj op_in (getv pool i) (getv pool j)) o
   | CMem2 _ i j k o => agree_bool (calc op_in (getv pool i) (VList [getv pool j; getv pool k])) o
   | CTriple _ i j k o => triple_im (getv pool i) (getv pool j) (getv pool k) o
+  | COrder _ ix o => let l := map (getv pool) ix in agree_val l (order_model l) o
   end.
 
 (* ---------- implementation vs specification ---------- *)
@@ -188,6 +227,7 @@ Definition c14_is (pool : list value) (c : c14_case) : bool :=
   | CMem2 _ i j k o => mem_allowed (getv pool i) [getv pool j; getv pool k] (obs_bool o)
   | CTriple _ i j k o =>
       triple_is (getv pool i) (getv pool j) (getv pool k) o && (triple_law o =? 0)
+  | COrder _ ix o => let l := map (getv pool) ix in order_allowed l (obs_val l o)
   end.
 
 (* diagnostics for the harness log: position (from 1) of the first answer of a direction that the
